@@ -1,15 +1,15 @@
 SPECIFICATION MCSpec
 CONSTANTS
   MaxPendings = {0, 1, 2, 3}
-  MaxUpd = 7
+  MaxUpd = 6
   MaxFaults = 1
-  MaxCrashes = 2
+  MaxCrashes = 1
   MaxCleanups = 1
   MaxSyncs = 1
-  Kinds = {"pre"}
-  MaxCloses = 0
-  MaxArchives = 0
-  MaxDeferred = 0
+  Kinds = {"pre", "fc", "pp"}
+  MaxCloses = 1
+  MaxArchives = 1
+  MaxDeferred = 1
   RefusedAsUpdate = FALSE
 VIEW View
 INVARIANT CrashRecoveredCoversReported
